@@ -1,5 +1,6 @@
 /- Helper lemmas for the entitlement ledger of Model/OnchainClaims.lean (C07).  Core only. -/
 import LdkModel.Model.OnchainClaims
+import LdkModel.Model.CloseCfg
 import LdkModel.Proofs.Package
 namespace Ldk.Onchain
 open Ldk
@@ -298,5 +299,61 @@ theorem ownFeerates_pairwise (rs : List Reissue) :
     split
     · exact List.Pairwise.cons (fun t ht => ownFeerates_ge rest _ hw' t ht) (ih _ hw')
     · exact ih _ hw'
+
+end Ldk.Onchain
+
+/-! ### per-side CSV delays (C07): closures built by `closeWith` -/
+namespace Ldk.Onchain
+open Ldk Ldk.Maturity
+
+theorem closeWith_items (c : CloseCfg) (height : Nat) (items : List Item) :
+    (closeWith c height items).entries.map (·.item) = items.map fun i => { i with csv := itemCsv c i.kind } := by
+  unfold closeWith
+  exact close_items _ _
+
+/-- in every state reachable from `closeWith c ..`, every entry carries the configuration's csv -/
+theorem run_closeWith_csv (c : CloseCfg) (height : Nat) (items : List Item) (ops : List Op) :
+    ∀ e ∈ (run (closeWith c height items) ops).entries, e.item.csv = itemCsv c e.item.kind := by
+  intro e he
+  have h1 : e.item ∈ (run (closeWith c height items) ops).entries.map (·.item) := List.mem_map.2 ⟨e, he, rfl⟩
+  rw [run_items, closeWith_items] at h1
+  obtain ⟨i, _, hi⟩ := List.mem_map.1 h1
+  rw [← hi]
+
+/-- burial of a claimed entry, spelled out -/
+theorem bury_claimed_iff (best h net : Nat) (e : Entry) (hs : e.stage = .claimed h net) :
+    (e.bury best).stage = .matured net ↔
+      (h + ANTI_REORG_DELAY ≤ best + 1 ∧ ∀ d, e.item.csv = some d → h + d ≤ best + 1) := by
+  have ha : ANTI_REORG_DELAY = 6 := rfl
+  unfold Entry.bury
+  rw [hs]
+  simp only
+  unfold hasReachedConfirmationThreshold confirmationThreshold
+  cases hc : e.item.csv with
+  | none =>
+    simp only [ge_iff_le, decide_eq_true_eq]
+    constructor
+    · intro hm
+      split at hm
+      · rename_i hle
+        exact ⟨by omega, fun d hd => by cases hd⟩
+      · rw [hs] at hm; cases hm
+    · intro hm
+      rw [if_pos (by omega)]
+  | some d =>
+    simp only [ge_iff_le, decide_eq_true_eq]
+    have e1 : Nat.max (h + ANTI_REORG_DELAY - 1) (h + d - 1) = max (h + ANTI_REORG_DELAY - 1) (h + d - 1) := rfl
+    rw [e1]
+    constructor
+    · intro hm
+      split at hm
+      · rename_i hle
+        refine ⟨by omega, fun d' hd => ?_⟩
+        cases hd
+        omega
+      · rw [hs] at hm; cases hm
+    · intro hm
+      have := hm.2 d rfl
+      rw [if_pos (by omega)]
 
 end Ldk.Onchain
